@@ -9,6 +9,7 @@ CONSTANTS
   MaxLife = 0
   MaxDims = 0
   MaxSteps = 6
+  MaxGen = 0
   EmitActs = {"Create", "CreateBad", "Delete", "DeleteAbsent", "AddLink", "RemoveLink", "SetOne", "SetAttr", "SetType", "SetDef", "AppendDim", "DeleteDims", "Flush", "Close", "Crash", "Open"}
   EmitRes = "reject"
   EmitWhen = "always"
